@@ -26,8 +26,8 @@ CLAIMS = {
     "C13": ("Per corpus tree: all core writers and the real kconfgen main() (config, header, cmake, json, json_menus, savedefconfig) run twice touch no destination the second time, and after one symbolic operation rewrite exactly the destinations whose text changes; a save over a complete previous file (regular or symlink) through Kconfig.write_config(save_old=True), kconfgen's write_config wrapper (the server's save) and the menuconfig save, with symbolic crash point, never loses both copies.", "DESIGN.md 4/C13"),
     "C14": ("Per corpus tree x protocol version 1-3: a model client applying the initial message and the replies to 1-2 symbolic requests (set / reset / load / save, valid and invalid) holds the state a fresh server reports for the file written by save; options missing there are reported invisible.", "DESIGN.md 4/C14"),
     "C15": ("Per corpus tree: for one request of symbolic shape (every protocol key, valid and wrong-typed; every version code; visible / invisible / unknown / menu / bogus targets; values of every JSON type) from a sampled configuration, and for short sequences with bad requests first: run_server raises nothing, writes exactly one JSON line per line received and nothing else to stdout, an entry that did not take effect leaves the configuration as if it had not been sent, and an unreadable / unwritable file name in load / save is reported in `error` with configuration and session file untouched. Log messages are passed through rich markup parsing like the real console.", "DESIGN.md 4/C15"),
-    "C16": ("Per corpus tree x initial file (absent, tool-written, hand-edited variants): every sequence of 2 (thorough 3) UI-level actions incl. saves and loads, driven through the real MenuConfigApp handlers on a stand-in self: whenever needs_save() is false the file equals what saving would write; right after a save or after loading a tool-written file needs_save() is false.", "DESIGN.md 4/C16"),
-    "C17": ("Per corpus tree: every sequence of 2 (thorough 3) UI-level actions (navigation, Enter, Space, y/n, reset, show-all, jump-to, load) with typed texts from candidate lists: no exception, the highlighted row exists, locked options keep their value, only assignable values are applied, a text the validator accepts is the value the option then has.", "DESIGN.md 4/C17"),
+    "C16": ("Per corpus tree x initial file (absent, tool-written, hand-edited variants): every sequence of 2 UI-level actions incl. saves and loads (thorough: more trees and start states, plus 3-action sequences with the first two kinds fixed per job and reduced row / text ranges), driven through the real MenuConfigApp handlers on a stand-in self: whenever needs_save() is false the file equals what saving would write; right after a save or after loading a tool-written file needs_save() is false.", "DESIGN.md 4/C16"),
+    "C17": ("Per corpus tree: every sequence of 2 UI-level actions (thorough: more trees and start states) (navigation, Enter, Space, y/n, reset, show-all, jump-to, load) with typed texts from candidate lists: no exception, the highlighted row exists, locked options keep their value, only assignable values are applied, a text the validator accepts is the value the option then has.", "DESIGN.md 4/C17"),
     "C19": ("On a fixed directory skeleton with symbolic file-system facts (project roots, rename files per directory) the verdict of the real _prepare_deprecated_options + check_deprecated_options for each defaults file equals a memo-free specification of 'global scope or own nearest project', in two different orders / subsets of the files.", "DESIGN.md 4/C19"),
     "C20": ("Per (tree, target): visibility and shown conditions computed by the real gen_kconfig_doc; for every assignment of the user-settable options a hidden prompt is n, every shown condition (recomputed with the writer's helpers, and read back from the generated text for can-be-set-when / forced-by / affects rows) has the truth value of the Kconfig condition, dropped rows never apply; every :ref: of the generated text has its anchor.", "DESIGN.md 4/C20"),
 }
